@@ -22,6 +22,7 @@ import (
 	"net"
 	"net/http"
 	"net/url"
+	"sort"
 	"strconv"
 	"strings"
 	"sync/atomic"
@@ -87,11 +88,15 @@ type UpstreamHost struct {
 	Name              string // hostname of this upstream host
 	UpstreamHeaders   http.Header
 	DownstreamHeaders http.Header
-	FailTimeout       time.Duration
-	CheckDown         UpstreamHostDownFunc
-	WithoutPathPrefix string
-	ReverseProxy      *ReverseProxy
-	Fails             int32
+	// the fields of the rules above in the order they were written in;
+	// rules whose field is not listed come last
+	UpstreamHeaderOrder   []string
+	DownstreamHeaderOrder []string
+	FailTimeout           time.Duration
+	CheckDown             UpstreamHostDownFunc
+	WithoutPathPrefix     string
+	ReverseProxy          *ReverseProxy
+	Fails                 int32
 	// This is an int32 so that we can use atomic operations to do concurrent
 	// reads & writes to this value.  The default value of 0 indicates that it
 	// is healthy and any non-zero value indicates unhealthy.
@@ -257,7 +262,7 @@ func (p Proxy) ServeHTTP(w http.ResponseWriter, r *http.Request) (int, error) {
 		// set headers for request going upstream
 		if host.UpstreamHeaders != nil {
 			// modify headers for request that will be sent to the upstream host
-			mutateHeadersByRules(outreq.Header, host.UpstreamHeaders, replacer, host.UpstreamHeaderReplacements)
+			mutateHeadersByRules(outreq.Header, host.UpstreamHeaders, host.UpstreamHeaderOrder, replacer, host.UpstreamHeaderReplacements)
 			if hostHeaders, ok := outreq.Header["Host"]; ok && len(hostHeaders) > 0 {
 				outreq.Host = hostHeaders[len(hostHeaders)-1]
 			}
@@ -267,7 +272,7 @@ func (p Proxy) ServeHTTP(w http.ResponseWriter, r *http.Request) (int, error) {
 		// headers coming back downstream
 		var downHeaderUpdateFn respUpdateFn
 		if host.DownstreamHeaders != nil {
-			downHeaderUpdateFn = createRespHeaderUpdateFn(host.DownstreamHeaders, replacer, host.DownstreamHeaderReplacements)
+			downHeaderUpdateFn = createRespHeaderUpdateFn(host.DownstreamHeaders, host.DownstreamHeaderOrder, replacer, host.DownstreamHeaderReplacements)
 		}
 
 		// A request the transport would refuse to put on the wire (a
@@ -519,14 +524,34 @@ func createUpstreamRequest(rw http.ResponseWriter, r *http.Request) (*http.Reque
 	return outreq, cancel
 }
 
-func createRespHeaderUpdateFn(rules http.Header, replacer httpserver.Replacer, replacements headerReplacements) respUpdateFn {
+func createRespHeaderUpdateFn(rules http.Header, order []string, replacer httpserver.Replacer, replacements headerReplacements) respUpdateFn {
 	return func(resp *http.Response) {
-		mutateHeadersByRules(resp.Header, rules, replacer, replacements)
+		mutateHeadersByRules(resp.Header, rules, order, replacer, replacements)
 	}
 }
 
-func mutateHeadersByRules(headers, rules http.Header, repl httpserver.Replacer, replacements headerReplacements) {
-	for ruleField, ruleValues := range rules {
+func mutateHeadersByRules(headers, rules http.Header, order []string, repl httpserver.Replacer, replacements headerReplacements) {
+	// the rules of a block take effect in the order they are written in
+	// ("set X" followed by "+X", "-X" followed by "+X"): a map knows none
+	fields := make([]string, 0, len(rules))
+	listed := make(map[string]bool, len(order))
+	for _, f := range order {
+		if _, ok := rules[f]; ok && !listed[f] {
+			fields = append(fields, f)
+			listed[f] = true
+		}
+	}
+	var rest []string
+	for f := range rules {
+		if !listed[f] {
+			rest = append(rest, f)
+		}
+	}
+	sort.Strings(rest)
+	fields = append(fields, rest...)
+
+	for _, ruleField := range fields {
+		ruleValues := rules[ruleField]
 		if strings.HasPrefix(ruleField, "+") {
 			for _, ruleValue := range ruleValues {
 				replacement := repl.Replace(ruleValue)
